@@ -1,1 +1,106 @@
-"""Structural (SSA-level) parts of the checks; filled in when the SSA stratum is delivered."""
+"""Structural (SSA-level) parts of the checks. The deciding facts are Lean theorems
+(`EdVerif/Props/Structural/*.lean`, `decide +kernel` on the SSA regenerated from /repo); this module only runs the
+compiled twin of the same Lean checkers (`ssadiag`) to NAME the offending sites when a theorem no longer checks, prints
+KNOWN-FINDING lines, and (C03) runs the execution-trace comparison that searches for a concrete pair of secrets."""
+import json
+import os
+import re
+
+
+def _diag(pid, env, log):
+    exe = os.path.join(env["LEAN"], ".lake", "build", "bin", "ssadiag")
+    if not os.path.exists(exe):
+        return None, "ssadiag not built"
+    rc, out, dt = env["sh"]([exe, pid], cwd=env["LEAN"], timeout=900)
+    log(f"ssadiag {pid} rc={rc} {dt:.1f}s")
+    return rc, out
+
+
+def _known():
+    try:
+        return json.load(open("/verif/known_findings.json"))["known"]
+    except Exception:
+        return []
+
+
+def ssa_sites(pid, tier, seed, st, log, env):
+    """names the SSA sites behind a structural predicate; known findings are printed, anything else is reported"""
+    info = {"coverage": {}, "violations": [], "broken": [], "known": []}
+    g = st.get("gen", {}).get("ssa")
+    if g is None or g["rc"] != 0:
+        info["broken"].append("translator:ssa: " + (g["out"][-300:] if g else "not run"))
+        return False, info
+    rc, out = _diag(pid, env, log)
+    if rc is None:
+        info["broken"].append(out)
+        return False, info
+    sites = [l for l in out.split("\n") if l.startswith("SITE ")]
+    preds = [l for l in out.split("\n") if l.startswith("PREDICATE ")]
+    prog = [l for l in out.split("\n") if l.startswith("PROGRAM ")]
+    info["coverage"] = {"ssa_program": prog[0] if prog else "", "predicates": preds, "sites": sites[:60]}
+    m = re.search(r"functions=(\d+) instructions=(\d+)", prog[0]) if prog else None
+    if m:
+        info["coverage"]["functions"] = int(m.group(1))
+        info["coverage"]["instructions"] = int(m.group(2))
+    kf = [s for s in sites if " known-finding " in s]
+    bad = [s for s in sites if " VIOLATION " in s or " violation " in s or " rejected " in s]
+    if pid == "C03" and kf:
+        for k in _known():
+            if k["property"] == "C03" and all(k["site"]["function"] in s for s in kf):
+                info["known"].append(f"KNOWN-FINDING: property=C03 {k['what']} ({len(kf)} SSA sites)")
+    ok = rc == 0 and all("=false" not in p for p in preds)
+    if not ok:
+        info["broken"].append("structural predicate false on the regenerated SSA: " + "; ".join(p for p in preds if "=false" in p))
+        info["broken"].extend(s for s in sites if " known-finding " not in s and " exempt " not in s and " discharged-guard " not in s)
+    return ok, info
+
+
+def c03_dynamic(pid, tier, seed, st, log, env):
+    """execution-trace comparison on the real code (Go coverage counters): any block whose execution count differs between
+    two inputs that differ only in secret values is a concrete C03 counterexample"""
+    BUILD, ROOT, sh = env["BUILD"], env["ROOT"], env["sh"]
+    info = {"coverage": {}, "violations": [], "broken": []}
+    exe = os.path.join(BUILD, "edct")
+    stamp = os.path.join(BUILD, "edct.tree")
+    if not os.path.exists(exe) or not os.path.exists(stamp) or open(stamp).read() != st.get("tree_hash", ""):
+        if os.path.exists(exe):
+            os.remove(exe)
+        rc, out, dt = sh(["go", "build", "-cover", "-covermode=atomic", "-coverpkg=filippo.io/edwards25519/...,verif/harness/cmd/edct",
+                          "-o", exe, "./cmd/edct"], cwd=os.path.join(ROOT, "harness"), env=env["GOENV"])
+        log(f"build edct (-cover) rc={rc} {dt:.1f}s")
+        if rc != 0:
+            info["coverage"]["trace_build"] = "unavailable: " + out[-300:]
+            return True, info
+        open(stamp, "w").write(st.get("tree_hash", ""))
+    covdir = os.path.join(env["RUN"], "gocover")
+    os.makedirs(covdir, exist_ok=True)
+    seeds = [seed] if tier == "quick" else [seed + i for i in range(8)]
+    fam = 0
+    traces = 0
+    for sd in seeds:
+        rc, out, dt = sh([exe, str(sd)], env=dict(env["GOENV"], GOCOVERDIR=covdir), timeout=1800)
+        fam += len([l for l in out.split("\n") if l.startswith("ok ") or l.startswith("LEAK ")])
+        m = re.search(r"traces=(\d+)", out)
+        traces += int(m.group(1)) if m else 0
+        leaks = [l for l in out.split("\n") if l.startswith("LEAK ")]
+        if leaks:
+            d = os.path.join(ROOT, "evidence", "replay")
+            os.makedirs(d, exist_ok=True)
+            p = os.path.join(d, f"{pid}-trace-{sd}.json")
+            json.dump({"property": pid, "kind": "failing-input", "command": f"GOCOVERDIR=/verif/run/gocover /verif/build/edct {sd}",
+                       "leaks": leaks, "explanation": "block execution counts of the real code differ between two inputs that differ only in secret values"},
+                      open(p, "w"), indent=1)
+            info["violations"].append(("failing-input", p, leaks[0][:400]))
+            info["coverage"]["trace_families"] = fam
+            return False, info
+        if rc != 0:
+            info["coverage"]["trace_error"] = out[-400:]
+            break
+    for f in os.listdir(covdir):
+        try:
+            os.remove(os.path.join(covdir, f))
+        except OSError:
+            pass
+    info["coverage"]["trace_families"] = fam
+    info["coverage"]["traces_compared"] = traces
+    return True, info
